@@ -1,8 +1,8 @@
 #!/verif/.venv/bin/python
 # Replay of a solver counterexample against the unmodified code (no shims).
-# property=C18 kernel=switch label=strict:identical_timeline
+# property=C18 kernel=switch label=switch:within_max_sequence_duration
 import sys
-sys.path[:0] = ["/repo/pulser-core", "/repo/pulser-simulation", "/verif"]
+sys.path[:0] = ['/repo' + "/pulser-core", '/repo' + "/pulser-simulation", "/verif"]
 from symx.replay import replay
-sys.exit(replay(check='checks.c18', kernel='switch', shape={'program': 'eom_twice', 'device': 'virt_reuse', 'sym': [], 'concrete': [['ryd_glob', 'eom.intermediate_detuning', 6597.344572538565]], 'reusable': True, 'strict': True, 'param': True},
-                assignment={}, label='strict:identical_timeline'))
+sys.exit(replay(check='checks.c18', kernel='switch', shape={'program': 'retarget_tail', 'sym': [['ryd_loc', 'fixed_retarget_t']], 'maxseq': True, 'strict': True},
+                assignment={'buf#1.start': 0, 'buf#1.end': 0, 'buf#2.start': 0, 'buf#2.end': 1, 'ryd_loc.fixed_retarget_t': 12, 'B.max_sequence_duration': 428}, label='switch:within_max_sequence_duration'))
